@@ -300,6 +300,9 @@ LIN_MODELS = {
     "lin_drift_m": ("!transition-variables\n  l, g\n!transition-shocks\n  el, eg\n!parameters\n  rho, c\n!transition-equations\n  l = l[-1] + g + el;\n  g = rho*g[-1] + c + eg;\n"
                     "!measurement-variables\n  ol, o2\n!measurement-equations\n  ol = l;\n  o2 = 2*l + g + 1;\n",
                     dict(rho=0.5, c=0.1), ("l = l[-1] + g + el", "g = rho*g[-1] + c + eg", "ol = l", "o2 = 2*l + g + 1"), ("el", "eg")),
+    # an exogenous variable with a non-zero assigned value (lookup treats it like a parameter: levels come from the model)
+    "lin_exog": ("!transition-variables\n  x\n!exogenous-variables\n  z\n!transition-shocks\n  e\n!parameters\n  rho\n!transition-equations\n  x = rho*x[-1] + z + e;\n",
+                 dict(rho=0.5, z=2.0), ("x = rho*x[-1] + z + e",), ("e",)),
     "lin_stat_m": ("!transition-variables\n  p, y\n!transition-shocks\n  ep, ey\n!parameters\n  b, k, rho\n!transition-equations\n  p = b*p[+1] + k*(y - 1) + 0.2 + ep;\n"
                    "  y = 1 + rho*(y[-1] - 1) + ey;\n!measurement-variables\n  op\n!measurement-equations\n  op = 2*p + 0.5*y[-1];\n",
                    dict(b=0.9, k=0.25, rho=0.8), ("p = b*p[+1] + k*(y - 1) + 0.2 + ep", "y = 1 + rho*(y[-1] - 1) + ey", "op = 2*p + 0.5*y[-1]"), ("ep", "ey")),
